@@ -98,7 +98,7 @@ Proof.
     try (destruct Hv as (_ & _ & _ & svs' & _ & ->));
     subst; simpl in Hs; try discriminate;
     inversion Hs; subst; simpl; rewrite ?Hn; eexists; split; try reflexivity; simpl; auto;
-    try (destruct l as [z|[|]| | | |]; reflexivity).
+    try (destruct l as [z|[|]| | | | |o|nd]; reflexivity).
 Qed.
 
 Lemma prim2_okR : forall p h v1 v2 w1 w2 r stk0,
@@ -111,8 +111,8 @@ Lemma prim2_okR : forall p h v1 v2 w1 w2 r stk0,
 Proof.
   intros p h v1 v2 w1 w2 r stk0 Ha Hp H1 H2 Hs.
   destruct p; try discriminate Ha; try discriminate Hp.
-  all: try (destruct w1 as [[a| | | | |] | |]; simpl in Hs; try discriminate;
-            destruct w2 as [[b| | | | |] | |]; simpl in Hs; try discriminate;
+  all: try (destruct w1 as [[a| | | | | | |] | |]; simpl in Hs; try discriminate;
+            destruct w2 as [[b| | | | | | |] | |]; simpl in Hs; try discriminate;
             simpl in H1, H2; subst; inversion Hs; subst; simpl;
             eexists; exists []; rewrite app_nil_r; split; reflexivity).
   simpl in Hs. inversion Hs; subst. simpl. eexists; exists [HPair v1 v2]. split; [reflexivity|].
@@ -124,7 +124,7 @@ Lemma sval_false_decR : forall h v w, vrelR h v w ->
   (w = SLit (LBool false) /\ v = VLit (LBool false)) \/ (w <> SLit (LBool false) /\ v <> VLit (LBool false)).
 Proof.
   intros h v w H. destruct w as [l | x y | id ps rr ls b env]; simpl in H.
-  - subst. destruct l as [z|[|]| | | |]; try (right; split; congruence). left; auto.
+  - subst. destruct l as [z|[|]| | | | |o|nd]; try (right; split; congruence). left; auto.
   - destruct H as (a & vx & vy & -> & _). right; split; congruence.
   - destruct H as (_ & _ & _ & svs' & _ & ->). right; split; congruence.
 Qed.
@@ -499,7 +499,7 @@ Proof.
   - destruct e as [l | x o | x o e1 | t p e2 | es | id ps r ls sv fv b | g args | p args]; try discriminate Hp.
     + (* Lit *)
       rewrite eval_Lit in He. inversion He; subst. split; [apply store_ext_refl|].
-      exists (VLit l), []. split; [reflexivity|].
+      exists (VLit (lit_value l)), []. split; [reflexivity|].
       simpl generate in *. eapply leaf_outcome; eauto. eapply step_push; eauto.
     + (* Ref *)
       destruct o as [|m].
@@ -551,7 +551,7 @@ Proof.
               ** solve_len.
       * (* then branch *)
         assert (Hep : eval f p env st1 = SVal v st').
-        { destruct vt as [[z|[|]| | | |] | |]; try exact He; congruence. }
+        { destruct vt as [[z|[|]| | | | |o|nd] | |]; try exact He; congruence. }
         pose proof (step_jump_unless_true s1 _ _ _ v1 (stk s) Hat2 eq_refl Hv) as Hstep.
         set (s2 := upd s1 (stk s) (S (ip s1)) (heap s1)) in *.
         assert (Hat3 : at_code s2 (pre ++ ct ++ [IJumpUnless (S (length cp))]) cp ([IJump (length cf)] ++ cf ++ post)).
